@@ -55,6 +55,11 @@ def clause_props(K, clause, cfg):
         out = set(K.fprops)
     if mode in GUARDED and clause[:2] in ("C.", "S.", "E.", "V.", "R.") and K.guard_relevant:
         out = out | {"C07"}
+    # C09: the bodies of oblivious branches are arbitrary traced operations executed under a guard; "the emitted
+    # constraints are satisfied and independent of which branches were taken" is, per operation, the honest-satisfaction
+    # and trace-shape facet of its contract in the guarded modes
+    if mode in GUARDED and clause[:2] in ("C.", "T.", "N.") and K.guard_relevant and ("C01" in K.cprops or "C06" in K.tprops):
+        out = out | {"C09"}
     return out
 
 
@@ -72,12 +77,17 @@ def select(prop):
             ps.add("C04")
         if K.guard_relevant:
             ps.add("C07")
+        if prop == "C09" and prop not in ps and K.guard_relevant and ("C01" in K.cprops or "C06" in K.tprops):
+            out.append((K, "CTN"))
+            continue
         if prop in ps:
             out.append((K, getattr(K, "facets", None) or fac))
     return out
 
 
 def cfg_relevant(prop, K, cfg):
+    if prop == "C09" and "C09" not in (set(K.cprops) | set(K.vprops) | set(K.tprops) | set(K.fprops)):
+        return cfg.get("mode") in GUARDED
     if prop == "C07":
         return cfg.get("mode") in GUARDED or "C07" in K.fprops
     return True
